@@ -1221,6 +1221,10 @@ func (ex *Exec) evalSpecFunc(name string, call *ast.CallExpr, st *State) []Value
 			st.ghost["net.lastok"] = g
 		}
 		return []Value{g}
+	case "tlsdone":
+		// the TLS handshake of the connection this function works on has completed (set by the models of a successful
+		// dial and of a successful read from the stream; arbitrary at function entry)
+		return []Value{boolV(tlsDone(st))}
 	case "exportlabel", "exportctxlen", "exportctxbyte":
 		// uninterpreted attributes of the (fresh) region a TLS exporter call returned; arbitrary for any other slice
 		x := ex.eval(call.Args[0], st)
